@@ -24,10 +24,14 @@ func tier(q, t int) int {
 
 // yamlModel: third-party YAML parsing is environment. It either fails or yields an annotation
 // with arbitrary (symbolic) fields.
-var yamlCalls int
+var (
+	yamlCalls int
+	yamlDocs  []string // the documents the loaders handed to the YAML parser, in order
+)
 
 func verifYAMLUnmarshal(data []byte, out any) error {
 	yamlCalls++
+	yamlDocs = append(yamlDocs, string(data))
 	if sym.Choice(fmt.Sprintf("yaml_fails_%d", yamlCalls), 2) == 1 {
 		return errors.New("yaml: unmarshal errors")
 	}
@@ -104,13 +108,60 @@ func refMakefile(lines []string, yamlOK func(k int) bool) (cmds []string, reject
 	return cmds, false
 }
 
+// refDocs: the YAML documents of the annotation blocks, read from the convention: after a "# @grog"
+// marker every following comment line (blank lines ignored) contributes its text after the '#' -
+// indentation inside the comment is YAML structure and is kept - until the first other line ends the
+// block; a block without text is not parsed at all. needRule: the Makefile convention parses a
+// block only when a rule line follows it; the script convention when any other line follows.
+func refDocs(lines []string) []string {
+	var docs []string
+	i := 0
+	for i < len(lines) {
+		t := strings.TrimSpace(lines[i])
+		i++
+		if !strings.HasPrefix(t, "# @grog") {
+			continue
+		}
+		var parts []string
+		for i < len(lines) {
+			n := strings.TrimSpace(lines[i])
+			i++
+			if n == "" {
+				continue
+			}
+			if strings.HasPrefix(n, "#") {
+				parts = append(parts, n[1:])
+				continue
+			}
+			if doc := strings.Join(parts, "\n"); doc != "" {
+				docs = append(docs, doc)
+			}
+			break
+		}
+	}
+	return docs
+}
+
+// the documents actually parsed are a prefix of the reference documents (parsing stops at the first error)
+func checkDocs(lines []string, id string) {
+	want := refDocs(lines)
+	sym.Assert(len(yamlDocs) <= len(want), id+".count")
+	for k := range yamlDocs {
+		if k < len(want) {
+			sym.Assert(sym.StrEq(yamlDocs[k], want[k]), id+".text")
+		}
+	}
+}
+
 // P1: any sequence of lines yields a package or an error from the Makefile parser - never a panic
 func VerifC16_P_makefile() {
 	yamlCalls = 0
 	n := 1 + sym.Choice("n_lines", tier(3, 4))
 	lines := symLines(n)
 	p := newMakefileParser(bufio.NewScanner(sym.LinesReader(lines)))
+	yamlDocs = nil
 	pkg, found, err := p.parse()
+	checkDocs(lines, "C16.P1.makefile-yaml-document-is-the-comment-text")
 	// differential: the same lines through the reference reading (the YAML model's verdict per block is
 	// read back from the choices the model made)
 	want, rejected := refMakefile(lines, func(k int) bool { return sym.Choice(fmt.Sprintf("yaml_fails_%d", k), 2) == 0 })
@@ -142,7 +193,13 @@ func VerifC16_P_script() {
 	n := 1 + sym.Choice("n_lines", tier(3, 4))
 	lines := symLines(n)
 	p := newScriptParser(bufio.NewScanner(sym.LinesReader(lines)), "/w/p/tool.grog.sh")
+	yamlDocs = nil
 	pkg, _, err := p.parse()
+	if len(yamlDocs) > 0 {
+		// the script convention has a single block: the first one with text
+		want := refDocs(lines)
+		sym.Assert(len(want) > 0 && sym.StrEq(yamlDocs[0], want[0]), "C16.P2.script-yaml-document-is-the-comment-text")
+	}
 	if err != nil {
 		sym.Reach("C16.P.script.error")
 		return
